@@ -286,7 +286,8 @@ def round_(number, num_digits=0):
         # and https://gist.github.com/ejamesc/cedc886c5f36e2d075c5
 
     else:
-        return round(number, num_digits)
+        # builtin round() is half to even: round(25, -1) == 20
+        return _round(number, num_digits, rounding=ROUND_HALF_UP)
 
 
 def _round(number, num_digits, rounding):
@@ -402,8 +403,8 @@ def sumproduct(*args):
 def trunc(number, num_digits=0):
     # Excel reference: https://support.microsoft.com/en-us/office/
     #   TRUNC-function-8B86A64C-3127-43DB-BA14-AA5CEB292721
-    factor = 10 ** int(num_digits)
-    return int(number * factor) / factor
+    # scaling by a power of ten is not exact in binary: 0.29 * 100 < 29
+    return _round(number, num_digits, rounding=ROUND_DOWN)
 
 
 # Older mappings for excel functions that match Python built-in and keywords
